@@ -34,6 +34,8 @@ type mon struct {
 	prev  *audit.KV
 	h     *hist.History
 	first bool
+	// slotSeq: enumerated slot-move history; witnesses carry the block only
+	slotSeq bool
 }
 
 func (m *mon) OnGenesis(ch *chainsim.Chain) { m.check(ch, nil, nil) }
@@ -63,7 +65,12 @@ func (m *mon) check(ch *chainsim.Chain, bt *chainsim.BlockTrace, specs []hist.Tx
 	m.c.Count("stale_child_hash_in_parent_reference(observed,not a clause)", stats["stale_child_hash_in_parent_reference"])
 	if bt != nil {
 		for i, t := range bt.Txs {
-			if t.OK {
+			if t.OK && m.slotSeq {
+				if specs[i].Label != "slot-reset" {
+					m.c.Count("slot_sequences_ok", 1)
+					m.c.Distinct(specs[i].Label)
+				}
+			} else if t.OK {
 				m.c.Count("tx_ok:"+specs[i].Label, 1)
 			} else {
 				m.c.Count("tx_failed", 1)
@@ -96,7 +103,7 @@ func (m *mon) check(ch *chainsim.Chain, bt *chainsim.BlockTrace, specs []hist.Tx
 }
 
 func run(c *vf.Ctx) {
-	n := c.N(3, 24)
+	n := c.N(5, 24)
 	blocks := c.N(10, 40)
 	c.Parallel(n, 6, 300, func(i int, rng *rand.Rand) {
 		seed := uint64(c.Seed)*1000 + uint64(i)
@@ -108,7 +115,7 @@ func run(c *vf.Ctx) {
 		if maxTx == 1 {
 			nb = blocks * 3
 		}
-		h := hist.GenP(rng, seed, nb, maxTx, hist.Profile{FailBoost: i%3 == 2})
+		h := hist.GenP(rng, seed, nb, maxTx, hist.Profile{FailBoost: i%3 == 2, MoveBoost: i%3 == 1})
 		m := &mon{c: c, seed: seed, h: h, first: i == 0}
 		ch, err := hist.Play(h, hist.PlayOpts{Monitors: []hist.Monitor{m}, RestartAt: map[int]bool{len(h.Blocks) / 2: true}})
 		if ch != nil {
@@ -121,6 +128,25 @@ func run(c *vf.Ctx) {
 			c.Sample(map[string]any{"history_seed": seed, "first_blocks": h.Blocks[:4]})
 		}
 	})
+	// Enumerated multi-finalization messages: every sequence of 2 (quick) or 2 and 3
+	// (thorough) object moves between two slots inside ONE message, from every start state.
+	var hs []*hist.History
+	hs = append(hs, hist.SlotSeqHistories(2, 6)...)
+	if !c.Quick() {
+		hs = append(hs, hist.SlotSeqHistories(3, 12)...)
+	}
+	c.Parallel(len(hs), 6, 300, func(i int, rng *rand.Rand) {
+		h := hs[i]
+		m := &mon{c: c, seed: h.Seed, h: &hist.History{Seed: h.Seed}, slotSeq: true}
+		ch, err := hist.Play(h, hist.PlayOpts{Monitors: []hist.Monitor{m}})
+		if ch != nil {
+			defer ch.Close()
+		}
+		if err != nil {
+			panic(err)
+		}
+	})
+	c.RequireCounter("slot_sequences_ok", int64(4*81*9/10))
 	c.Assume("the auditor decodes with the production amino codec; reference enumeration is the auditor's own reflection walk over decoded values")
 	c.Assume("exemptions taken from the code's own rules: package values are roots (RefCount 1, no owner); references from another realm to objects of an immutable (/p/, stdlib) package are not counted; objects kept alive by a leaked reference cycle are not reported as unreachable")
 	c.RequireCounter("graphs_checked", 10)
